@@ -103,6 +103,27 @@ func (c *Ctx) c02CaseK(kind string, key, plain, honest, ct []byte, keyed bool) {
 	c.Oracle("released-bytes-are-a-prefix", bytes.HasPrefix(plain, out), "stream-wrong-plaintext", in, "bytes released before the error are not a prefix of the original plaintext")
 	c.Oracle("altered-payload-never-clean-eof", same || oc != ":eof", "stream-tamper-accepted", in, "an altered payload decrypted to a clean end of stream")
 	c.Oracle("untouched-payload-decrypts", !same || (oc == ":eof" && bytes.Equal(out, plain)), "stream-roundtrip", in, "the untouched payload did not decrypt")
+	// a caller that reads again after an error gets the same error and no bytes, for ever
+	if oc != ":eof" {
+		r, _ := stream.NewReader(key, bytes.NewReader(ct))
+		buf := make([]byte, 700)
+		var first error
+		released := 0
+		for i := 0; i < 1000; i++ {
+			n, e := r.Read(buf)
+			released += n
+			if e != nil {
+				first = e
+				break
+			}
+		}
+		sticky := first != nil
+		for i := 0; i < 3 && sticky; i++ {
+			n, e := r.Read(buf)
+			sticky = n == 0 && e != nil && e.Error() == first.Error()
+		}
+		c.Oracle("failed-reader-stays-failed", sticky, "stream-error-not-sticky", in, fmt.Sprintf("after the error %v a further Read returned data or another result", first))
+	}
 	// draining with io.Copy must give the same verdict as Read / io.ReadAll
 	if len(ct) < 3000 || c.evals%4 == 0 {
 		implC, _, _ := implStreamDecCopy(key, ct)
@@ -294,6 +315,28 @@ func checkC02(c *Ctx) {
 			c.Oracle("released-bytes-are-a-prefix", bytes.HasPrefix(plain, out), "stream-wrong-plaintext", in, "released bytes are not a prefix of the plaintext")
 			c.note("long:"+name, true)
 			c.count("long-payload-tamper")
+		}
+	}
+	// (c3) an empty final chunk is legal only as the ONLY chunk: after n full chunks it must be refused for every n
+	// (the harness seals the chunks itself; counters around the byte boundaries of the nonce)
+	{
+		key := c.rng.bytes(32)
+		full := make([]byte, chunkSize)
+		for _, nFull := range []int{1, 2, 3, 255, 256, 257, 512} {
+			if nFull > 257 && !c.thorough() {
+				continue
+			}
+			var ct []byte
+			for i := 0; i < nFull; i++ {
+				ct = append(ct, sealChunk(key, uint64(i), false, full)...)
+			}
+			ct = append(ct, sealChunk(key, uint64(nFull), true, nil)...)
+			r, _ := stream.NewReader(key, bytes.NewReader(ct))
+			n, err := io.Copy(io.Discard, r)
+			in := map[string]interface{}{"kind": "empty-final-chunk-after-full-chunks", "full_chunks": nFull}
+			c.Oracle("altered-payload-never-clean-eof", err != nil, "empty-final-chunk-accepted", in, fmt.Sprintf("%d full chunks followed by an EMPTY final chunk decrypted to a clean end of stream (%d bytes): a second chunking of the same plaintext", nFull, n))
+			c.count("empty-final-chunk")
+			c.note(fmt.Sprint("emptyfinal:", nFull), true)
 		}
 	}
 	// (d) whole files through age.Decrypt: flips and truncations after the header
